@@ -27,6 +27,8 @@ def step (st : St) (ws : List String) : St × String :=
     match st.store with
     | some s => (⟨none, closedForm s⟩, "close ok")
     | none => (st, "close invalid_state")
+  | "image" :: _ => (st, "image")      -- file-level ops: judged by the checks, not by this model
+  | "fhash" :: _ => (st, "fhash")
   | op :: args =>
     match st.store with
     | none => (st, s!"{op} closed")
